@@ -51,8 +51,34 @@ RouteOk(c, r) ==
         IN /\ \A p \in ExpectedRoutes(c, r.sender) : Got(p[1], p[2]) = Mult(p[2])
            /\ \A g \in Range(r.big.got) : <<g[1], g[2]>> \in ExpectedRoutes(c, r.sender))
 
+(* membership changing at run time (one shared ring, update_peer / remove_peer on every router): every epoch by itself  *)
+(* obeys the rules above for the ring observed in it, and between two epochs placement changes only for keys that gain *)
+(* or lose the node that joined or left                                                                                *)
+EpochOk(e) ==
+  /\ Sorted(e.ring_a)
+  /\ NodesOf(e.ring_a) = Range(e.members)
+  /\ \A k \in Range(e.keys) :
+        /\ k.def = Replicas(e.ring_a, k.pos, e.rf)
+        /\ Range(k.resp) = Range(k.def)                      \* is_responsible agrees with the replica list
+        /\ k.primary = (IF Len(k.def) = 0 THEN 0 ELSE k.def[1])
+EpochRoutesOk(e) == \A r \in Range(e.routes) : RouteSet(r.new) = ExpectedRoutes(e, r.sender)
+KeyAt(e, name) == CHOOSE k \in Range(e.keys) : k.k = name
+StepOk(old, new) ==
+  LET x == new.op[2] IN
+  \A k \in Range(new.keys) :
+     LET o == KeyAt(old, k.k).def IN
+     IF new.op[1] = "join" THEN (x \notin Range(k.def) => k.def = o) /\ (x \in Range(k.def) /\ Len(k.def) = Len(o) + 1 => Without(k.def, x) = o)
+     ELSE (x \notin Range(o) => k.def = o) /\ (Without(o, x) = SubSeq(k.def, 1, Len(Without(o, x))))
+DynVerdict(c) ==
+  IF "panic" \in DOMAIN c THEN "panic"
+  ELSE IF \E i \in DOMAIN c.epochs : ~EpochOk(c.epochs[i]) THEN "after a membership change at run time the replica list differs from Replicas(observed ring), or the ring does not hold exactly the members"
+  ELSE IF \E i \in DOMAIN c.epochs : ~EpochRoutesOk(c.epochs[i]) THEN "after a membership change at run time a routing table differs from Replicas minus sender"
+  ELSE IF \E i \in 2..Len(c.epochs) : ~StepOk(c.epochs[i - 1], c.epochs[i]) THEN "a join or leave changed the placement of a key that neither gained nor lost that node"
+  ELSE "ok"
+
 Verdict(c) ==
-  IF c.t = "xproc" THEN (IF c.p1 = c.here /\ c.p2 = c.here THEN "ok" ELSE "two processes compute different replica lists for the same membership and configuration")
+  IF c.t = "dyn" THEN DynVerdict(c)
+  ELSE IF c.t = "xproc" THEN (IF c.p1 = c.here /\ c.p2 = c.here THEN "ok" ELSE "two processes compute different replica lists for the same membership and configuration")
   ELSE IF "panic" \in DOMAIN c THEN "panic"
   ELSE IF ~Sorted(c.ring_a) \/ ~Sorted(c.ring_b) \/ ~Sorted(c.ring_big) THEN "ring positions are not strictly ordered"
   ELSE IF Range(c.ring_a) # Range(c.ring_b) THEN "the ring depends on the join / leave order"
